@@ -62,7 +62,7 @@ func (e *EAP) DecodeFromBytes(data []byte, df gopacket.DecodeFeedback) error {
 	switch {
 	case e.Length > 4:
 		e.Type = EAPType(data[4])
-		e.TypeData = data[5:]
+		e.TypeData = data[5:e.Length]
 	case e.Length == 4:
 		e.Type = 0
 		e.TypeData = nil
@@ -78,12 +78,12 @@ func (e *EAP) DecodeFromBytes(data []byte, df gopacket.DecodeFeedback) error {
 // SerializationBuffer, implementing gopacket.SerializableLayer.
 // See the docs for gopacket.SerializableLayer for more info.
 func (e *EAP) SerializeTo(b gopacket.SerializeBuffer, opts gopacket.SerializeOptions) error {
-	if opts.FixLengths {
-		e.Length = uint16(len(e.TypeData) + 1)
-	}
 	size := len(e.TypeData) + 4
 	if size > 4 {
 		size++
+	}
+	if opts.FixLengths {
+		e.Length = uint16(size)
 	}
 	bytes, err := b.PrependBytes(size)
 	if err != nil {
